@@ -649,6 +649,8 @@ def run(ctx):
         if done % 11 == 0:
             N = int(rng.integers(max(2 * P, 101 + P), 129)) if 101 + P <= 128 else N   # NP > 100 truncation
         x, bins = make_signal(rng, K, N, NFFT, real)
+        if done % 5 == 4:
+            x = x * float(10.0 ** int(rng.choice([-30, -18, -12, -6, 6, 12, 18])))     # every clause is invariant under the unit of the data
         S0 = np.linalg.svd(build_fb(x, P), compute_uv=False)
         if S0[0] / max(S0[K - 1], 1e-300) > 1e7:
             ctx.count('search/regenerated_illconditioned'); continue
